@@ -301,7 +301,9 @@ func (d *decoder) varUint(pos, end int) (uint64, int, error) {
 		c := d.b[pos]
 		pos++
 		if v > math.MaxUint64>>7 {
-			return 0, pos, d.errf(Unsupported, pos, "VarUInt exceeds 64 bits")
+			// a length, ID or calendar field of 2^64 or more cannot be honoured
+			// by any input: invalid wherever it stands
+			return 0, pos, d.errf(Invalid, pos, "VarUInt exceeds 64 bits")
 		}
 		v = v<<7 | uint64(c&0x7F)
 		if c&0x80 != 0 {
